@@ -124,9 +124,12 @@ func (server *SugarDB) keysExist(ctx context.Context, keys []string) map[string]
 
 	exists := make(map[string]bool, len(keys))
 
+	now := server.clock.Now()
+
 	for _, key := range keys {
-		_, ok := server.store[database][key]
-		exists[key] = ok
+		entry, ok := server.store[database][key]
+		// A key whose deadline has passed is treated as missing even if it has not been collected yet.
+		exists[key] = ok && !(entry.ExpireAt != (time.Time{}) && entry.ExpireAt.Before(now))
 	}
 
 	return exists
@@ -140,6 +143,11 @@ func (server *SugarDB) getExpiry(ctx context.Context, key string) time.Time {
 
 	entry, ok := server.store[database][key]
 	if !ok {
+		return time.Time{}
+	}
+
+	// A key whose deadline has passed is treated as missing even if it has not been collected yet.
+	if entry.ExpireAt != (time.Time{}) && entry.ExpireAt.Before(server.clock.Now()) {
 		return time.Time{}
 	}
 
